@@ -9,6 +9,7 @@ import DriverOps.Common
 "dt.subs"  {"line":text, "comma":bool, "hyphen":bool, "dot":bool} → text           (the read substitutions, in order)
 "dt.split" {"dlm":"SPACE"|"TAB"|"COMMA"|"PY", "line":text} → [tokens]              ("PY" = str.split())
 "dt.sniff" {"lines":[…], "first":n, "last":n, "dlm":…, "comma":bool, "hyphen":bool, "dot":bool} → {"count": n | -1, "hyphen": bool}
+"dt.plain" {"tok":text} → bool     (isPlainDecimal = numeric_literal_regex.fullmatch)
 "dt.null"  {"use":bool, "null":float-text|null, "columns":[["f"|"s",[cells]]…]} → [["f"|"s",[cells]]…]     (applyNull)
 -/
 open Lean Lasio Lasio.Dt
@@ -99,6 +100,7 @@ def handleData (op : String) (j : Json) : Except String Json := do
       pure (Json.mkObj [("count", match r.count with | some n => jnat n | none => jint (-1)),
                         ("hyphen", Json.bool r.hyphenFired)])
     | none => pure (Json.str "unmodelled")
+  | "dt.plain" => pure (Json.bool (isPlainDecimal (← fldS j "tok")))
   | "dt.null" =>
     let use ← (← fld j "use").getBool?
     let null ← dtOptStr (← fld j "null")
